@@ -429,3 +429,14 @@ Proof.
   - destruct (p_ws_run c ops) as [B W]. fold s in B, W.
     apply (p_sel_close_reported c d s desc G L). constructor; auto.
 Qed.
+
+(* ---------- on the select back-end the history-level theorem needs no delete_on_close restriction ---------- *)
+Theorem p_close_reported_history_select c ops d desc :
+  p_no_target c d -> d < length c -> pc_conn (p_get c d) = true ->
+  let s := p_run false c ops in
+  st_regr s d = true -> st_closed s d = true -> st_pend s d = [] -> st_onclose s d = true -> st_del s d = false ->
+  p_closed_logged d (p_step c s (POPoll desc)).
+Proof.
+  intros G L CN s RG CL PD ON DL. destruct (p_ws_run c ops) as [B W]. fold s in B, W.
+  apply (p_sel_close_reported c d s desc G L). constructor; auto.
+Qed.
